@@ -19,9 +19,9 @@ def main():
         s = vf.tlc("OSVRange", "OSVRange-sanity.cfg", workers=2, collect=False, timeout=120)
         if s.violated != "Sanity":
             raise vf.NotAVerdict("sanity invariant not violated: vacuous model")
-        cfgs = ["OSVRange-single-quick.cfg", "OSVRange-multi-quick.cfg"]
+        cfgs = ["OSVRange-single-quick.cfg", "OSVRange-multi-quick.cfg", "OSVRange-nested-quick.cfg"]
         if ck.thorough():
-            cfgs = ["OSVRange-single.cfg", "OSVRange-multi.cfg", "OSVRange-multi-quick.cfg"]
+            cfgs = ["OSVRange-single.cfg", "OSVRange-multi.cfg", "OSVRange-multi-quick.cfg", "OSVRange-nested-quick.cfg"]
         cases = []
         for c in cfgs:
             r = vf.require_ok(vf.tlc("OSVRange", c, timeout=1500), c)
